@@ -1082,7 +1082,11 @@ class StubsStringGenerator:
                         is_module=False,
                     )
 
-                    if shortest_qname:
+                    # The class is only declared in the reexporting package if that path is shorter than the path
+                    # of its own module (see _has_node_shorter_reexport), otherwise it stays where it is defined
+                    module_ids = [module_id for module_id in self.api.modules if class_id.startswith(f"{module_id}/")]
+                    module_length = max((len(module_id.split("/")) for module_id in module_ids), default=0)
+                    if shortest_qname and len(shortest_qname.split(".")) < module_length:
                         qname = f"{shortest_qname}.{name}"
 
                     in_package = True
